@@ -245,7 +245,10 @@ func (vm *VM) convertPanic(msg any) error {
 		}
 	case OpIf, -OpIf:
 		if err, ok := msg.(runtime.Error); ok {
-			if s := err.Error(); strings.HasPrefix(s, "runtime error: comparing uncomparable type ") {
+			s := err.Error()
+			if strings.HasPrefix(s, "runtime error: comparing uncomparable type ") ||
+				strings.HasPrefix(s, "hash of unhashable type: ") ||
+				strings.HasPrefix(s, "runtime error: hash of unhashable type ") {
 				return vm.newPanic(runtimeError(s))
 			}
 		}
